@@ -13,7 +13,7 @@ R5  H/RT - U/RT = 1 with FreeTrans, 0 without (references off)
 R6  verbose vector: sum (product for q) equals the total, entries equal what the mode
     objects / references / ConstantModes report on their own; get_EoRT = elec U (+ ZPE)
 R7  every closed-form mode equals the textbook expression (vf/ref/statmech.py), also after
-    re-assigning vib_wavenumbers / imaginary_substitute / spin (cache refresh histories)
+    re-assigning ANY public parameter of any mode object (cache / memo refresh histories)
 R8  geometry-derived parameters are invariant under rotation + translation + permutation
     (all 162 molecules of ase.collections.g2 in every run)
 R9  every documented point-group label builds the rotor of the tabulated symmetry number
@@ -46,7 +46,22 @@ REQUIRED_CLASSES = ['trans:none', 'trans:1', 'trans:2', 'trans:3',
                     'misc:1', 'misc:2', 'refs', 'hist:set_wavenumbers', 'hist:set_imaginary_substitute',
                     'hist:set_spin', 'opt:include_ZPE', 'opt:raise_error=False', 'opt:use_references=False',
                     'regime:theta>>T', 'regime:theta<<T', 'geom:monatomic', 'geom:linear', 'geom:nonlinear',
-                    'pointgroups:exhaustive']
+                    'pointgroups:exhaustive',
+                    # exact ties (symmetric / spherical tops, degenerate vibrations)
+                    'rot:symmetric_top', 'rot:spherical_top', 'vib:degenerate',
+                    # corners of the quantifier box (low T / characteristic-temperature ratios etc.)
+                    'corner:case', 'corner:T=50', 'corner:T=5000', 'corner:P=1e-4', 'corner:P=1e3',
+                    'corner:M=1', 'corner:M=500', 'corner:T<1.5*theta_rot:linear',
+                    'corner:T<1.5*theta_rot:nonlinear', 'corner:T<=theta_rot', 'corner:theta_rot=0.01',
+                    'corner:theta_vib/T>50', 'corner:crystal_theta/T>=20', 'corner:crystal_theta/T<=0.02',
+                    # re-assignment of every public parameter after a first evaluation
+                    'hist:set_molecular_weight', 'hist:set_n_degrees', 'hist:set_rot_temperatures',
+                    'hist:set_symmetrynumber', 'hist:set_geometry', 'hist:set_potentialenergy',
+                    'hist:set_einstein_temperature', 'hist:set_debye_temperature',
+                    'hist:set_interaction_energy:EinsteinVib', 'hist:set_interaction_energy:DebyeVib',
+                    'hist:set_wavenumbers:HarmonicVib', 'hist:set_wavenumbers:QRRHOVib',
+                    'hist:set_imaginary_substitute:HarmonicVib', 'hist:set_imaginary_substitute:QRRHOVib',
+                    'hist:set_Bav', 'hist:set_v0', 'hist:set_alpha']
 REQUIRED_BRANCHES = []
 REQUIRED_PROBES = ['StatMech.get_quantity', '_get_mode_quantity', '_get_valid_vib_wavenumbers',
                    'HarmonicVib.vib_wavenumbers.setter', 'QRRHOVib.vib_wavenumbers.setter',
@@ -73,9 +88,11 @@ ASSUMPTIONS = [
     'miss on the G2 set: linear/nonlinear where every / some i-j-k angle deviates <1 / >10 degrees from '
     'collinear, rotational temperatures from the inertia tensor (3e-3; pMuTT amu literal has 4 digits; '
     'observed 2.3e-5), molar mass vs. the sum of ASE atomic masses (5e-2; observed 3.7e-4)',
-    're-assigning vib_wavenumbers, imaginary_substitute or spin after construction must give the '
-    'object of a fresh construction with the new value (anchor: cached _valid_* / _degeneracy must '
-    'track them)',
+    're-assigning any public parameter of a mode object after a first evaluation (molecular_weight, '
+    'n_degrees, vib_wavenumbers, imaginary_substitute, Einstein/Debye temperature, interaction_energy, '
+    'rot_temperatures, symmetrynumber (number), geometry together with its rot_temperatures, '
+    'potentialenergy, spin) must give the object of a fresh construction with the new value; '
+    'QRRHOVib.Bav / v0 / alpha included since the fix recorded as C01-qrrho-stale-scaling-cache',
     'integral-form tolerance 1e-7*max(1,|integral|) + 1e-12*(|T2 X2|+|T1 X1|); quadrature error '
     'estimate above 10% of that makes the point inconclusive',
 ]
@@ -142,24 +159,143 @@ def _gen_misc(rng):
     return m
 
 
+# re-assignment operations: name -> (slot, attribute, classes that have it)
+HIST_OPS = {
+    'set_molecular_weight': ('trans', 'molecular_weight', ('FreeTrans',)),
+    'set_n_degrees': ('trans', 'n_degrees', ('FreeTrans',)),
+    'set_wavenumbers': ('vib', 'vib_wavenumbers', ('HarmonicVib', 'QRRHOVib')),
+    'set_imaginary_substitute': ('vib', 'imaginary_substitute', ('HarmonicVib', 'QRRHOVib')),
+    'set_Bav': ('vib', 'Bav', ('QRRHOVib',)),
+    'set_v0': ('vib', 'v0', ('QRRHOVib',)),
+    'set_alpha': ('vib', 'alpha', ('QRRHOVib',)),
+    'set_einstein_temperature': ('vib', 'einstein_temperature', ('EinsteinVib',)),
+    'set_debye_temperature': ('vib', 'debye_temperature', ('DebyeVib',)),
+    'set_interaction_energy': ('vib', 'interaction_energy', ('EinsteinVib', 'DebyeVib')),
+    'set_rot_temperatures': ('rot', 'rot_temperatures', ('RigidRotor',)),
+    'set_symmetrynumber': ('rot', 'symmetrynumber', ('RigidRotor',)),
+    'set_geometry': ('rot', 'geometry', ('RigidRotor',)),       # value = {geometry, rot_temperatures}
+    'set_potentialenergy': ('elec', 'potentialenergy', ('GroundStateElec',)),
+    'set_spin': ('elec', 'spin', ('GroundStateElec',)),
+}
+# operations excluded from generation (none: the QRRHOVib Bav / v0 / alpha stale cache was fixed in /repo,
+# known_findings.json C01-qrrho-stale-scaling-cache)
+HIST_EXCLUDED = ()
+_N_ROT = {'monatomic': 0, 'linear': 1, 'nonlinear': 3}
+
+
+def _gen_rot_T(rng, n, tie=None):
+    """n rotational temperatures; tie = 2 / 3 makes that many EXACTLY equal (symmetric / spherical top)"""
+    r = rng.random()
+    if r < 0.15:
+        vals = [rng.choice([0.01, 100.0]) for _ in range(n)]
+    elif r < 0.30:
+        vals = [G.logu(rng, 40.0, 100.0) for _ in range(n)]
+    else:
+        vals = [G.logu(rng, 0.01, 100.0) for _ in range(n)]
+    if tie and n == 3:
+        vals[1] = vals[0]
+        if tie == 3:
+            vals[2] = vals[0]
+        rng.shuffle(vals)
+    return vals
+
+
+def _hist_value(rng, op, spec_slot):
+    corner = rng.random() < 0.25
+    if op == 'set_molecular_weight':
+        return rng.choice([1.0, 500.0]) if corner else G.logu(rng, 1.0, 500.0)
+    if op == 'set_n_degrees':
+        return rng.choice([n for n in (1, 2, 3) if n != spec_slot.get('n_degrees')])
+    if op == 'set_wavenumbers':
+        w = G.gen_wavenumbers(rng)
+        if corner:
+            w[0] = rng.choice([10.0, 4500.0])
+        if rng.random() < 0.3 and len(w) > 1:
+            w[-1] = w[0]
+        return w
+    if op == 'set_imaginary_substitute':
+        return rng.choice([None, G.rnd(rng, 10, 200, 2), G.rnd(rng, 10, 200, 2), 10.0, 200.0])
+    if op == 'set_Bav':
+        return rng.choice([1e-46, 1e-43]) if corner else G.logu(rng, 1e-46, 1e-43)
+    if op == 'set_v0':
+        return rng.choice([50.0, 200.0]) if corner else G.rnd(rng, 50, 200, 2)
+    if op == 'set_alpha':
+        return rng.choice([a for a in (2, 3, 4, 5, 6) if a != spec_slot.get('alpha')])
+    if op in ('set_einstein_temperature', 'set_debye_temperature'):
+        return rng.choice([50.0, 2000.0]) if corner else G.logu(rng, 50, 2000)
+    if op == 'set_interaction_energy':
+        return rng.choice([-1.0, 1.0, 0.0]) if corner else G.rnd(rng, -1, 1, 4)
+    if op == 'set_rot_temperatures':
+        n = _N_ROT[spec_slot['geometry']]
+        return _gen_rot_T(rng, n, tie=rng.choice([None, None, 2, 3]))
+    if op == 'set_symmetrynumber':
+        return rng.choice([x for x in (1, 2, 3, 4, 6, 10, 12, 24) if x != spec_slot.get('symmetrynumber')])
+    if op == 'set_geometry':
+        g = rng.choice([x for x in _N_ROT if x != spec_slot['geometry']])
+        return {'geometry': g, 'rot_temperatures': _gen_rot_T(rng, _N_ROT[g], tie=rng.choice([None, 2, 3]))}
+    if op == 'set_potentialenergy':
+        return rng.choice([-50.0, 0.0]) if corner else G.rnd(rng, -50, 0, 5)
+    if op == 'set_spin':
+        return rng.choice([x for x in (0, 0.5, 1, 1.5, 2, 2.5, 3) if x != spec_slot.get('spin')])
+    raise ValueError(op)
+
+
 def _gen_hist(rng, spec):
+    """1-3 re-assignments of public parameters of the species' modes (applied after a first full
+    evaluation; every one is followed by a re-evaluation)"""
+    state = {s: (dict(spec[s]) if spec[s] else None) for s in SLOTS}
     ops = []
-    cand = []
-    if spec['vib'] and spec['vib']['type'] in ('HarmonicVib', 'QRRHOVib'):
-        cand += ['set_wavenumbers', 'set_imaginary_substitute']
-    if spec['elec'] and spec['elec']['type'] == 'GroundStateElec':
-        cand += ['set_spin']
-    if not cand:
-        return ops
-    for _ in range(rng.choice([1, 1, 2])):
-        k = rng.choice(cand)
-        if k == 'set_wavenumbers':
-            ops.append([k, G.gen_wavenumbers(rng)])
-        elif k == 'set_imaginary_substitute':
-            ops.append([k, rng.choice([None, G.rnd(rng, 10, 200, 2), G.rnd(rng, 10, 200, 2)])])
+    for _ in range(rng.choice([1, 1, 2, 2, 3])):
+        cand = [op for op, (slot, attr, classes) in HIST_OPS.items()
+                if op not in HIST_EXCLUDED and state[slot] and state[slot]['type'] in classes
+                and not (op == 'set_rot_temperatures' and state[slot]['geometry'] == 'monatomic')]
+        if not cand:
+            break
+        op = rng.choice(cand)
+        slot, attr, _c = HIST_OPS[op]
+        val = _hist_value(rng, op, state[slot])
+        ops.append([op, val])
+        if op == 'set_geometry':
+            state[slot].update(val)
         else:
-            ops.append([k, rng.choice([0, 0.5, 1, 1.5, 2, 2.5, 3])])
+            state[slot][attr] = val
     return ops
+
+
+def _corner(rng, spec):
+    """push every parameter of the species to (or next to) an end of its quantifier interval and
+    the conditions to the cold / hot / dilute / dense corners"""
+    pick = lambda lo, hi, near=None: rng.choice([lo, hi] if near is None else [lo, hi, near])
+    t, v, r, e = spec['trans'], spec['vib'], spec['rot'], spec['elec']
+    if t:
+        t['molecular_weight'] = pick(1.0, 500.0)
+    if v:
+        if 'vib_wavenumbers' in v:
+            v['vib_wavenumbers'] = [pick(10.0, 4500.0, G.logu(rng, 2000.0, 4500.0)) * (1 if w > 0 else -1)
+                                    for w in v['vib_wavenumbers']]
+            if v.get('imaginary_substitute') is not None:
+                v['imaginary_substitute'] = pick(10.0, 200.0)
+        if v['type'] == 'QRRHOVib':
+            v['Bav'], v['v0'], v['alpha'] = pick(1e-46, 1e-43), pick(50.0, 200.0), pick(2, 6)
+        if 'einstein_temperature' in v:
+            v['einstein_temperature'] = pick(50.0, 2000.0)
+        if 'debye_temperature' in v:
+            v['debye_temperature'] = pick(50.0, 2000.0)
+        if 'interaction_energy' in v:
+            v['interaction_energy'] = pick(-1.0, 1.0)
+    if r and r['rot_temperatures']:
+        hot = rng.random() < 0.6
+        r['rot_temperatures'] = [(pick(100.0, G.rnd(rng, 60, 100, 3)) if hot else pick(0.01, 100.0))
+                                 for _ in r['rot_temperatures']]
+        if not isinstance(r['symmetrynumber'], str):
+            r['symmetrynumber'] = pick(1, 24)
+    if e and e['type'] == 'GroundStateElec':
+        e['potentialenergy'], e['spin'] = pick(-50.0, 0.0), pick(0, 3)
+    Ts = [50.0, G.rnd(rng, 50, 150, 3), rng.choice([5000.0, 50.0, G.rnd(rng, 50, 150, 3), 298.15])]
+    spec['conds'] = [[T, rng.choice([1e-4, 1e3, 1.0, _gen_P(rng)])] for T in Ts]
+    spec['interval'] = rng.choice([[50.0, G.rnd(rng, 55, 150, 2)], [50.0, 5000.0], [G.rnd(rng, 3000, 4900, 1), 5000.0]])
+    spec['Ppair'] = rng.choice([[1e-4, 1e3], [1e3, 1e-4], [1.0, 1e3]])
+    spec['corner'] = True
 
 
 def gen_species(rng, force=None):
@@ -172,7 +308,16 @@ def gen_species(rng, force=None):
         w = spec['vib']['vib_wavenumbers']
         w[rng.randrange(len(w))] = -G.logu(rng, 10.0, 2000.0)
         spec['vib']['imaginary_substitute'] = rng.choice([None, G.rnd(rng, 10, 200, 2)])
+    if spec['vib'] and 'vib_wavenumbers' in spec['vib'] and rng.random() < 0.25:
+        # degenerate vibrations: exactly repeated wavenumbers (CH4, NH3, benzene ...)
+        w = spec['vib']['vib_wavenumbers']
+        for _ in range(rng.randint(1, 3)):
+            if len(w) < 12:
+                w.insert(rng.randrange(len(w) + 1), rng.choice(w))
     spec['rot'] = G.gen_rot(rng)
+    if spec['rot'] and spec['rot']['geometry'] == 'nonlinear' and rng.random() < 0.4:
+        # symmetric / spherical tops: exactly equal rotational temperatures
+        spec['rot']['rot_temperatures'] = _gen_rot_T(rng, 3, tie=rng.choice([2, 2, 3]))
     if spec['rot'] and rng.random() < 0.25:
         spec['rot']['symmetrynumber'] = rng.choice(LABELS)
     r = rng.random()
@@ -196,6 +341,8 @@ def gen_species(rng, force=None):
     spec['Ppair'] = [_gen_P(rng), _gen_P(rng)]
     spec['opts'] = {'include_ZPE': rng.random() < 0.5, 'raise_error': rng.random() < 0.7,
                     'raise_warning': rng.random() < 0.5, 'use_references': rng.random() < 0.6}
+    if rng.random() < 0.2:
+        _corner(rng, spec)
     spec['hist'] = _gen_hist(rng, spec) if rng.random() < 0.4 else []
     return spec
 
@@ -308,6 +455,49 @@ def directed(tier):
                  opts=dict(_OPTS, use_references=False)))
     D.append(_sp())
     D.append(_sp(nucl={'type': 'EmptyNucl'}, opts=dict(_OPTS, raise_error=False)))
+    # exact ties: symmetric tops (NH3, benzene), spherical top (CH4), degenerate vibrations
+    D.append(_sp(trans={'type': 'FreeTrans', 'n_degrees': 3, 'molecular_weight': 17.031},
+                 rot={'type': 'RigidRotor', 'symmetrynumber': 3, 'geometry': 'nonlinear',
+                      'rot_temperatures': [14.3, 14.3, 9.08]},
+                 vib={'type': 'HarmonicVib', 'vib_wavenumbers': [3506.0, 3506.0, 3337.0, 1626.0, 1626.0, 950.0],
+                      'imaginary_substitute': None}, elec=h2o_el, elements={'N': 1, 'H': 3}))
+    D.append(_sp(trans={'type': 'FreeTrans', 'n_degrees': 3, 'molecular_weight': 16.043},
+                 rot={'type': 'RigidRotor', 'symmetrynumber': 12, 'geometry': 'nonlinear',
+                      'rot_temperatures': [7.54, 7.54, 7.54]},
+                 vib={'type': 'QRRHOVib', 'vib_wavenumbers': [3019.0, 3019.0, 3019.0, 2917.0, 1534.0, 1534.0, 1306.0,
+                                                              1306.0, 1306.0],
+                      'Bav': 1e-44, 'v0': 100.0, 'alpha': 4, 'imaginary_substitute': None},
+                 elec=h2o_el, elements={'C': 1, 'H': 4}))
+    D.append(_sp(rot={'type': 'RigidRotor', 'symmetrynumber': 12, 'geometry': 'nonlinear',
+                      'rot_temperatures': [0.1365, 0.273, 0.273]}, elements={'C': 6, 'H': 6}))
+    # cold corners: T at / just above 50 K with rotational temperatures at the top of their range
+    cold = [[50.0, 1e-4], [75.0, 1.0], [149.9, 1e3]]
+    D.append(_sp(trans={'type': 'FreeTrans', 'n_degrees': 3, 'molecular_weight': 1.0},
+                 rot={'type': 'RigidRotor', 'symmetrynumber': 1, 'geometry': 'linear', 'rot_temperatures': [100.0]},
+                 elec=h2o_el, conds=cold, interval=[50.0, 150.0], elements={'H': 1}))
+    D.append(_sp(rot={'type': 'RigidRotor', 'symmetrynumber': 2, 'geometry': 'linear', 'rot_temperatures': [87.6]},
+                 vib={'type': 'HarmonicVib', 'vib_wavenumbers': [4401.0], 'imaginary_substitute': None},
+                 conds=[[50.0, 1.0], [100.0, 1.0], [131.4, 1.0]], interval=[50.0, 131.4], elements={'H': 2}))
+    D.append(_sp(rot={'type': 'RigidRotor', 'symmetrynumber': 24, 'geometry': 'nonlinear',
+                      'rot_temperatures': [100.0, 100.0, 100.0]},
+                 vib={'type': 'EinsteinVib', 'einstein_temperature': 2000.0, 'interaction_energy': 1.0},
+                 conds=cold, interval=[50.0, 60.0]))
+    D.append(_sp(rot={'type': 'RigidRotor', 'symmetrynumber': 1, 'geometry': 'nonlinear',
+                      'rot_temperatures': [100.0, 0.01, 62.5]},
+                 vib={'type': 'DebyeVib', 'debye_temperature': 50.0, 'interaction_energy': -1.0},
+                 conds=[[50.0, 1.0], [2500.0, 1.0], [5000.0, 1.0]], interval=[4000.0, 5000.0]))
+    # re-assignment of every public parameter after a first evaluation (one pinned history per mode)
+    full = dict(trans=ft3, vib=h2o_vib, rot=h2o_rot, elec=h2o_el)
+    D.append(_sp(hist=[['set_molecular_weight', 44.01], ['set_n_degrees', 2], ['set_molecular_weight', 2.016]], **full))
+    D.append(_sp(hist=[['set_rot_temperatures', [5.0, 5.0, 2.0]], ['set_symmetrynumber', 6],
+                       ['set_geometry', {'geometry': 'linear', 'rot_temperatures': [0.56]}]], **full))
+    D.append(_sp(hist=[['set_geometry', {'geometry': 'monatomic', 'rot_temperatures': []}],
+                       ['set_geometry', {'geometry': 'nonlinear', 'rot_temperatures': [3.0, 3.0, 3.0]}]], **full))
+    D.append(_sp(hist=[['set_potentialenergy', -3.2], ['set_spin', 1.0], ['set_potentialenergy', 0.0]], **full))
+    D.append(_sp(vib={'type': 'EinsteinVib', 'einstein_temperature': 300.0, 'interaction_energy': -0.2}, elec=h2o_el,
+                 hist=[['set_einstein_temperature', 900.0], ['set_interaction_energy', 0.5]]))
+    D.append(_sp(vib={'type': 'DebyeVib', 'debye_temperature': 300.0, 'interaction_energy': -0.2}, elec=h2o_el,
+                 hist=[['set_debye_temperature', 900.0], ['set_interaction_energy', 0.5]]))
     # geometry clause: every molecule of the bundled G2 set, one fixed rigid motion + permutation each
     from ase.collections import g2
     for i, name in enumerate(g2.names):
@@ -316,7 +506,7 @@ def directed(tier):
 
 
 # ====================================================================== probes
-_ST = {'ctx': None, 'tags': {'vib': None, 'elec': None}, 'seen': set()}
+_ST = {'ctx': None, 'tags': {'trans': None, 'vib': None, 'rot': None, 'elec': None}, 'seen': set()}
 _VIB = ('HarmonicVib', 'QRRHOVib', 'EinsteinVib', 'DebyeVib')
 
 
@@ -328,8 +518,12 @@ def _hist_mech(mech):
         tag = t['vib']
     elif c == 'GroundStateElec':
         tag = t['elec']
+    elif c == 'FreeTrans':
+        tag = t['trans']
+    elif c == 'RigidRotor':
+        tag = t['rot']
     elif c == 'StatMech':
-        tag = '+'.join(x for x in (t['vib'], t['elec']) if x) or None
+        tag = t.get('last')          # the most recent re-assignment on any of its modes
     else:
         tag = None
     if tag:
@@ -629,6 +823,50 @@ def _tally(ctx, spec):
     if not o['use_references']:
         ctx.cls('opt:use_references=False')
     ctx.nontrivial(sum(1 for s in SLOTS if spec[s]) >= 2)
+    # exact ties
+    if r and r['geometry'] == 'nonlinear':
+        k = len(set(r['rot_temperatures']))
+        if k == 2:
+            ctx.cls('rot:symmetric_top')
+        elif k == 1:
+            ctx.cls('rot:spherical_top')
+    if v and 'vib_wavenumbers' in v and len(set(v['vib_wavenumbers'])) < len(v['vib_wavenumbers']):
+        ctx.cls('vib:degenerate')
+    # corners of the quantifier box
+    if spec.get('corner'):
+        ctx.cls('corner:case')
+    Ts = [c[0] for c in spec['conds']]
+    Ps = [c[1] for c in spec['conds']] + list(spec['Ppair'])
+    for T in Ts:
+        if T == 50.0:
+            ctx.cls('corner:T=50')
+        if T == 5000.0:
+            ctx.cls('corner:T=5000')
+    for P in Ps:
+        if P == 1e-4:
+            ctx.cls('corner:P=1e-4')
+        if P == 1e3:
+            ctx.cls('corner:P=1e3')
+    if t and t['molecular_weight'] in (1.0, 500.0):
+        ctx.cls('corner:M=%d' % t['molecular_weight'])
+    if r and r['rot_temperatures']:
+        th = max(r['rot_temperatures'])
+        if any(T < 1.5 * th for T in Ts):
+            ctx.cls('corner:T<1.5*theta_rot:%s' % r['geometry'])
+        if any(T <= th for T in Ts):
+            ctx.cls('corner:T<=theta_rot')
+        if min(r['rot_temperatures']) == 0.01:
+            ctx.cls('corner:theta_rot=0.01')
+    if v and 'vib_wavenumbers' in v:
+        pos = [w for w in v['vib_wavenumbers'] if w > 0]
+        if pos and any(ref.C2 * max(pos) / T > 50 for T in Ts):
+            ctx.cls('corner:theta_vib/T>50')
+    if v and v['type'] in ('EinsteinVib', 'DebyeVib'):
+        th = v.get('einstein_temperature', v.get('debye_temperature'))
+        if any(th / T >= 20 for T in Ts):
+            ctx.cls('corner:crystal_theta/T>=20')
+        if any(th / T <= 0.02 for T in Ts):
+            ctx.cls('corner:crystal_theta/T<=0.02')
 
 
 def _ref_entry(spec, q, T, use_references):
@@ -755,7 +993,7 @@ def _observe_species(ctx, sm, objs, cur, spec, misc_objs=None, relations=True):
 
 def run_species(spec, ctx):
     from pmutt.statmech import StatMech, ConstantMode
-    _ST['tags'] = {'vib': None, 'elec': None}
+    _ST['tags'] = {'trans': None, 'vib': None, 'rot': None, 'elec': None, 'last': None}
     _ST['seen'] = set()
     _tally(ctx, spec)
     cur = {s: (dict(spec[s]) if spec[s] else None) for s in SLOTS}
@@ -783,8 +1021,18 @@ def run_species(spec, ctx):
         return
     # twins: objects of the same initial spec that no operation touches
     twins = {}
-    if spec['hist']:
-        twins = {'vib': G.build_mode(spec['vib']), 'elec': build_elec(spec['elec'])}
+    touched = []
+    for op, _v in spec['hist']:
+        if op not in HIST_OPS:
+            raise core.HarnessError('unknown op %r' % op)
+        if HIST_OPS[op][0] not in touched:
+            touched.append(HIST_OPS[op][0])
+    for slot in touched:
+        twins[slot] = build_elec(spec[slot]) if slot == 'elec' else (
+            G.build_mode(dict(spec[slot], symmetrynumber=ref.POINT_GROUPS.get(spec[slot]['symmetrynumber'],
+                                                                             spec[slot]['symmetrynumber']))
+                         if slot == 'rot' and isinstance(spec[slot]['symmetrynumber'], str) else spec[slot]))
+    # first evaluation of everything (caches / memos that exist get filled here)
     for s in SLOTS:
         _observe_mode(ctx, objs[s], cur[s], spec)
     _observe_species(ctx, sm, objs, cur, spec)
@@ -795,32 +1043,40 @@ def run_species(spec, ctx):
             _observe_species(ctx, smm, objs, cur, spec, misc_objs=misc_objs, relations=False)
             # attaching misc models to one species must not change the other
             _observe_species(ctx, sm, objs, cur, dict(spec, conds=spec['conds'][:1]), relations=False)
-    # ---- re-assignment histories -----------------------------------------
-    for op, val in spec['hist']:
+    # ---- re-assignment histories: any public parameter of any mode --------------
+    for k, (op, val) in enumerate(spec['hist']):
+        slot, attr, classes = HIST_OPS[op]
+        cname = _cls_of(cur[slot])
+        if cname not in classes:
+            raise core.HarnessError('%s does not apply to %s' % (op, cname))
         ctx.cls('hist:' + op)
-        if op == 'set_wavenumbers':
-            slot, attr, new = 'vib', 'vib_wavenumbers', list(val)
-            cur['vib']['vib_wavenumbers'] = list(val)
-        elif op == 'set_imaginary_substitute':
-            slot, attr, new = 'vib', 'imaginary_substitute', val
-            cur['vib']['imaginary_substitute'] = val
-        elif op == 'set_spin':
-            slot, attr, new = 'elec', 'spin', val
-            cur['elec']['spin'] = val
-        else:
-            raise core.HarnessError('unknown op %r' % op)
+        if op in ('set_wavenumbers', 'set_imaginary_substitute', 'set_interaction_energy'):
+            ctx.cls('hist:%s:%s' % (op, cname))
         _ST['tags'][slot] = op
+        _ST['tags']['last'] = op
         _ST['seen'] = set()
-        r = ctx.call('R7', _hist_mech({'class': _cls_of(cur[slot]), 'step': 'assign'}), setattr, objs[slot], attr, new)
-        if r is core.NOVALUE:
-            return
-        _observe_mode(ctx, objs[slot], cur[slot], spec)
-        _observe_species(ctx, sm, objs, cur, spec)
-    if spec['hist']:
-        for slot in ('vib', 'elec'):
-            if spec[slot] is not None and spec[slot]['type'] != 'LSR':
-                closed_forms(ctx, twins[slot], spec[slot], spec['conds'][:1], spec['opts']['include_ZPE'],
-                             {'class': _cls_of(spec[slot]), 'hist': 'twin_untouched'})
+        mech_a = _hist_mech({'class': cname, 'step': 'assign'})
+        if op == 'set_geometry':
+            # the number of rotational temperatures belongs to the geometry: assign both, observe after
+            steps = [('rot_temperatures', list(val['rot_temperatures'])), ('geometry', val['geometry'])]
+            cur[slot]['rot_temperatures'] = list(val['rot_temperatures'])
+            cur[slot]['geometry'] = val['geometry']
+        else:
+            new = list(val) if isinstance(val, list) else val
+            steps = [(attr, new)]
+            cur[slot][attr] = list(val) if isinstance(val, list) else val
+        for a, v in steps:
+            r = ctx.call('R7', mech_a, setattr, objs[slot], a, v)
+            if r is core.NOVALUE:
+                return
+        # closed forms + totals after every operation; the (costly) integral forms after the last one
+        last = k == len(spec['hist']) - 1
+        _observe_mode(ctx, objs[slot], cur[slot], spec, full=last)
+        _observe_species(ctx, sm, objs, cur, spec, relations=last)
+    for slot in touched:
+        if spec[slot] is not None and spec[slot]['type'] != 'LSR':
+            closed_forms(ctx, twins[slot], spec[slot], spec['conds'][:1], spec['opts']['include_ZPE'],
+                         {'class': _cls_of(spec[slot]), 'hist': 'twin_untouched'})
 
 
 # ====================================================================== geometry cases (R8)
